@@ -2,6 +2,7 @@
 This module contains the implementation for the SNMPv3 message-processing model
 """
 
+from time import monotonic
 from typing import Any, Awaitable, Callable, Dict, Optional, Union
 
 from x690.types import Integer, OctetString
@@ -58,6 +59,9 @@ class V3MPM(MessageProcessingModel[V3EncodingResult, TV3SecModel]):
     message-processing-model.
     """
 
+    #: The local (monotonic) time at which the discovery data was retrieved
+    disco_timestamp: Optional[float] = None
+
     def decode(
         self,
         whole_msg: bytes,  # as received from the network
@@ -92,6 +96,7 @@ class V3MPM(MessageProcessingModel[V3EncodingResult, TV3SecModel]):
             self.disco = await self.security_model.send_discovery_message(
                 self.transport_handler
             )
+            self.disco_timestamp = monotonic()
         security_engine_id = self.disco.authoritative_engine_id
 
         if engine_id == b"":
@@ -113,10 +118,16 @@ class V3MPM(MessageProcessingModel[V3EncodingResult, TV3SecModel]):
         )
 
         if self.disco is not None:
+            # The remote engine-time keeps advancing after the discovery. We
+            # need to follow it locally (see RFC 3414, section 2.3) or the
+            # requests drop out of the time-window of the remote engine.
+            elapsed = 0
+            if self.disco_timestamp is not None:
+                elapsed = int(monotonic() - self.disco_timestamp)
             self.security_model.set_engine_timing(
                 self.disco.authoritative_engine_id,
                 self.disco.authoritative_engine_boots,
-                self.disco.authoritative_engine_time,
+                self.disco.authoritative_engine_time + elapsed,
             )
 
         snmp_version = 3
